@@ -290,6 +290,25 @@ def _c09_scripts(h, vals, clauses=()):
     elif name == "return_context":
         out.append(("return 1\n", "reject"))
         out.append(("do f() start return 1 end\nshout(f())\n", "accept"))
+    elif name.startswith("member_"):
+        # draws: receiver type, argument type
+        recv, argt = (flat + [0, 0])[:2]
+        if recv > 7 or argt > 7:
+            return []
+        _m, fname, na = name.split("_")[0], "_".join(name.split("_")[1:-1]), int(name[-1])
+        args = ", ".join([_LIT[argt]] * na)
+        table = {1: {"len": (0, 0), "trim": (0, 0), "find": (1, 1), "split": (1, 1), "replace": (2, 1), "slice": (2, 2)},
+                 3: {"len": (0, 0), "pop": (0, 0), "join": (1, 1), "push": (1, 0)}, 0: {"abs": (0, 0)}, 5: {"success": (0, 0)}, 4: {"run": (0, 0)}}
+        if recv == 6:
+            adm = True
+        else:
+            sig = table.get(recv, {}).get(fname)
+            adm = sig is not None and sig[0] == na and not (na >= 1 and sig[1] and argt != 6 and argt != (1 if sig[1] == 1 else 0))
+        recv_expr = "(%s)" % _LIT[recv] if recv in (0,) else _LIT[recv]
+        if recv == 3 and fname in ("push", "pop"):
+            out.append((pre + "make arr get [1]\narr.%s(%s)\nshout(arr)\n" % (fname, args), "accept" if adm else "reject"))
+        else:
+            out.append((pre + "make r get %s.%s(%s)\nshout(r)\n" % (recv_expr, fname, args), "accept" if adm else "reject"))
     elif name.startswith("rule_"):
         t = flat[0] if flat else 0
         if t > 7:
@@ -331,12 +350,24 @@ _C02_SCRIPTS = {
     "relocate_alias_slot": [('do f() start\n  make s get "a" add "b"\n  return s\nend\nshout(f())\nmake k get f()\nmake z get "zz" add "z"\nshout(k)\n', ["ab", "ab"])],
     "relocate_host_result": [('do mk() start\n  return command("echo")\nend\nmake c get mk()\nmake z get "zz" add "zzzzzzzzzzzzzzzzzzzzzzzzzzzzzzzzzzzzzzzzzzzzzz"\nshout(c)\n',
                               ['<process_command program="echo" args=0>'])],
+    "detach_alias_slot": [('do f() start\n  make s get "a" add "b"\n  return s\nend\nshout(f())\nmake k get f()\nmake z get "zz" add "z"\nshout(k add z)\n', ["ab", "abzzz"])],
+    "detach_alias_frame": [('do f(p) start\n  return p\nend\nshout(f("a" add "b"))\nmake t get "zz" add "zz"\nshout(f("c" add "d") add t)\n', ["ab", "cdzzzz"])],
+    "detach_source": [('do f() start\n  return "lit"\nend\nmake k get f()\nmake z get "zz" add "z"\nshout(k add z)\n', ["litzzz"])],
+    "detach_owned_slot": [('do f() start\n  return "a" add "b"\nend\nmake k get f()\nmake z get "zz" add "z"\nshout(k add z)\n', ["abzzz"])],
+    "detach_array": [
+        ('do f(k) start\n  make key get k add ":"\n  return [key, 1, true, null]\nend\nmake t get f("name")\nmake z get "zz" add "zzz"\nshout(t)\nshout(t[0] add z)\n',
+         ['["name:", 1, true, null]', "name:zzzzz"]),
+        ('do g(k) start\n  make key get k add ":"\n  return [[key], [k add "!"]]\nend\nmake t get g("name")\nmake z get "zzzzz" add "z"\nshout(t)\nshout(t[0][0] add t[1][0] add z)\n',
+         ['[["name:"], ["name!"]]', "name:name!zzzzzz"]),
+        ('do h(p) start\n  return [[p]]\nend\nmake t get h("a" add "b")\nmake z get "zz" add "zz"\nshout(t[0][0] add z)\n', ["abzzzz"]),
+        ('do e() start\n  return []\nend\nshout(e())\n', ["[]"]),
+    ],
     "relocate_owned_frame": [('do f() start\n  return "a" add "b"\nend\nmake k get f()\nmake z get "zz" add "z"\nshout(k)\n', ["ab"])],
 }
 
 
 def adapter_c02_script(stage, prop, h, r, unlisted, outdir):
-    scripts = _C02_SCRIPTS.get(h.name, [])
+    scripts = _C02_SCRIPTS.get(h.name) or _C02_SCRIPTS.get(h.name.rsplit("_n", 1)[0], [])
     tried = []
     for script, want in scripts:
         for rel in (False, True):
